@@ -170,7 +170,7 @@ fn generic<T: Tier, M: MatN<T, N> + InvT<T>, const N: usize>(rep: &mut Report) {
         T::NAME,
         &format!("7 bases (3 generic, 2 exactly singular without zero entries, 1 with det ~2^-40, 1 scaled by 2^-20 so that |det| << machine epsilon) x <= {k} deviations over A1"),
         bs.len() * dev.len(),
-        Guard::states(100).need("singular", 2).need("invertible", 50).distinct(50),
+        Guard::states(100).need("singular", 2).need("invertible", 50).distinct(50).inconclusive(0.02),
         |i, ctx| {
             let (bi, di) = (i / dev.len(), i % dev.len());
             let r = deviate(&bs[bi].1, &dev.get(di), &letters);
